@@ -53,7 +53,7 @@ KINDS = ["valid", "not-json", "empty", "truncated", "binary", "foreign-type", "b
          # the same text in an encoding a text-mode reader does not expect: judged DIFFERENTIALLY against loading the file directly
          "encoded-utf8-bom", "encoded-utf16"]
 CLASS_FLOORS = {"layouts-0": 3, "layouts-1": 20, "layouts-2": 20, "layouts-3": 10, "compose-preferred": 20, "legacy-name": 20,
-                "both-names": 20, "dirname-with-special-characters": 50, "spelling-relative": 20, "spelling-double-slash": 10, "spelling-dot-segment": 10, "spelling-relative-dotdot": 10, "trailing-slash": 20, "heterogeneous": 10, "missing-file": 50, "accessor-loaded": 100, "mixed-kinds-two-names": 10}
+                "both-names": 20, "reopen-same-size-same-mtime": 20, "reopen-after-in-memory-edit": 20, "dirname-with-special-characters": 50, "spelling-relative": 20, "spelling-double-slash": 10, "spelling-dot-segment": 10, "spelling-relative-dotdot": 10, "spelling-through-symlink-dotdot": 10, "trailing-slash": 20, "heterogeneous": 10, "missing-file": 50, "accessor-loaded": 100, "mixed-kinds-two-names": 10}
 for _k in KINDS:
     CLASS_FLOORS["kind-" + _k] = 10
 
@@ -218,7 +218,7 @@ def materialise(pm, cfg, base, texts):
 
 DIRNAME_STYLES = ["c%d", "c%d", "c%d [old]", "c%d", "F-22-[20150522.%d]", "c%d", "c%d*", "c%d?x", "c%d", "c%d (copy) #1", "c%d-\u00e9", "c%d%%20x",
                   "c%d", "[c%d]", "c%d{a,b}"]
-SPELLINGS = ["plain", "plain", "relative", "double-slash", "dot-segment", "relative-dotdot", "plain", "relative"]
+SPELLINGS = ["plain", "plain", "relative", "double-slash", "dot-segment", "relative-dotdot", "plain", "relative", "through-symlink-dotdot"]
 
 
 def check_config(ctx, pm, cfg, workdir, texts, counter):
@@ -237,14 +237,27 @@ def _check_config(ctx, pm, cfg, workdir, texts, counter):
     # ordinary characters in a file name
     style = cfg.get("dirname_style") or DIRNAME_STYLES[(counter // 3) % len(DIRNAME_STYLES)]
     name = style % counter
+    spelling = cfg.get("spelling") or SPELLINGS[counter % len(SPELLINGS)]
     base = os.path.join(workdir, name)
+    link = None
+    if spelling == "through-symlink-dotdot":
+        # <link>/../<name>: the kernel resolves the link first, so '..' is the parent of the link's TARGET - a directory in
+        # another place than the one a textual normalisation of the path arrives at
+        home = os.path.join(workdir, "elsewhere%d" % counter)
+        shutil.rmtree(home, ignore_errors=True)
+        os.makedirs(os.path.join(home, "sub"))
+        link = os.path.join(workdir, "latest%d" % counter)
+        if os.path.lexists(link):
+            os.unlink(link)
+        os.symlink(os.path.join("elsewhere%d" % counter, "sub"), link)
+        base = os.path.join(home, name)
     if os.path.exists(base):
         shutil.rmtree(base)
     placed = materialise(pm, cfg, base, texts)
-    spelling = cfg.get("spelling") or SPELLINGS[counter % len(SPELLINGS)]
     path = {"plain": base, "relative": name, "double-slash": os.path.dirname(base) + "//" + name,
             "dot-segment": os.path.join(os.path.dirname(base), ".", name),
-            "relative-dotdot": os.path.join(name, "..", name)}[spelling]
+            "relative-dotdot": os.path.join(name, "..", name),
+            "through-symlink-dotdot": os.path.join(link or "", "..", name)}[spelling]
     path = path + ("/" if cfg["slash"] else "")
     case = dict(cfg, spelling=spelling, dirname_style=style)
     ctx.count("spelling-" + spelling)
@@ -265,8 +278,9 @@ def _check_config(ctx, pm, cfg, workdir, texts, counter):
         return
     # (1) allowed root
     spelled_root = comp.compose_path
-    got_root = os.path.normpath(os.path.abspath(comp.compose_path))
-    roots = dict((l, os.path.normpath(root_of(base, l))) for l in cfg["layouts"])
+    # compared as the kernel resolves them (a textual normpath is wrong for <link>/..)
+    got_root = os.path.realpath(comp.compose_path) if link is not None else os.path.normpath(os.path.abspath(comp.compose_path))
+    roots = dict((l, os.path.realpath(root_of(base, l)) if link is not None else os.path.normpath(root_of(base, l))) for l in cfg["layouts"])
     compose_has_info = "compose" in placed and placed["compose"]["info"]
     if compose_has_info:
         allowed = [roots["compose"]]
@@ -478,6 +492,34 @@ def _check_config(ctx, pm, cfg, workdir, texts, counter):
             except Exception as e:
                 got2, want2 = "raised %s: %s" % (type(e).__name__, str(e)[:100]), "the rewritten file"
             bad = got2 != want2
+            if not bad:
+                # ... also when the rewritten file has the same size, the same inode and the same modification time as the one
+                # read a moment ago (rsync -t, cp -p, SOURCE_DATE_EPOCH builds), and whatever a caller did IN MEMORY to the
+                # object an earlier Compose handed out
+                try:
+                    st = os.stat(fpath)
+                    handed_out = getattr(again, acc)
+                    handed_out.compose.respin = 77
+                    handed_out.compose.id = "Scribbled-1-20200101.77"
+                    third = pm["Compose"](path)
+                    got3 = getattr(third, acc).dumps()
+                    if got3 != want2:
+                        bad = True
+                        got2 = "the object an earlier Compose handed out, with the caller's in-memory edits: " + _origin(got3)
+                    ctx.count("reopen-after-in-memory-edit")
+                    twin = make_text(pm, acc, "rewrittex-%s" % acc)
+                    if not bad and len(twin) == len(new_text) and twin != new_text:
+                        with open(fpath, "r+") as f:
+                            f.write(twin)
+                        os.utime(fpath, ns=(st.st_atime_ns, st.st_mtime_ns))
+                        direct = pm[acc]()
+                        direct.loads(twin)
+                        want2 = direct.dumps()
+                        got2 = getattr(pm["Compose"](path), acc).dumps()
+                        bad = got2 != want2
+                        ctx.count("reopen-same-size-same-mtime")
+                except Exception as e:
+                    got2, bad = "raised %s: %s" % (type(e).__name__, str(e)[:100]), True
             ctx.monitor("reopen-sees-rewritten-file", fired=bad)
             if bad:
                 ctx.violation("reopen-sees-rewritten-file", "opening a compose yields the metadata stored for it NOW: a new Compose on the same path "
@@ -486,6 +528,9 @@ def _check_config(ctx, pm, cfg, workdir, texts, counter):
     ctx.count("kind-valid") if cfg["kind"] == "valid" else None
     ctx.count("kind-valid-empty-payload") if cfg["kind"] == "valid-empty-payload" else None
     shutil.rmtree(base, ignore_errors=True)
+    if link is not None:
+        os.unlink(link)
+        shutil.rmtree(os.path.dirname(base), ignore_errors=True)
 
 
 def names_location(msg, root, base, names, spelled=None):
